@@ -453,19 +453,45 @@ func KVs(subs []simrt.Op) []*types.KeyValue {
 	return out
 }
 
+// lend returns a private copy of a batch to hand to the store; recycle overwrites
+// it once the call has returned, the way a caller that pools its request buffers
+// would: the store must not depend on the caller's buffers after it answered.
+func lend(kvs []*types.KeyValue) []*types.KeyValue {
+	out := make([]*types.KeyValue, len(kvs))
+	for i, kv := range kvs {
+		out[i] = &types.KeyValue{Key: append([]byte(nil), kv.Key...), Value: append([]byte(nil), kv.Value...)}
+	}
+	return out
+}
+
+func recycle(kvs []*types.KeyValue) {
+	for _, kv := range kvs {
+		for i := range kv.Key {
+			kv.Key[i] = 0xEE
+		}
+		for i := range kv.Value {
+			kv.Value[i] = 0xEE
+		}
+	}
+}
+
 // StoreSet applies a batch in one step.
 func (n *Node) StoreSet(parent []byte, kvs []*types.KeyValue, height int64) (root []byte, err error, pnc interface{}) {
+	lent := lend(kvs)
 	pnc = Guard(func() {
-		root, err = n.Store.Set(&types.StoreSet{StateHash: parent, KV: kvs, Height: height}, true)
+		root, err = n.Store.Set(&types.StoreSet{StateHash: parent, KV: lent, Height: height}, true)
 	})
+	recycle(lent)
 	return
 }
 
 // MemSet computes a pending update.
 func (n *Node) MemSet(parent []byte, kvs []*types.KeyValue, height int64) (root []byte, err error, pnc interface{}) {
+	lent := lend(kvs)
 	pnc = Guard(func() {
-		root, err = n.Store.MemSet(&types.StoreSet{StateHash: parent, KV: kvs, Height: height}, true)
+		root, err = n.Store.MemSet(&types.StoreSet{StateHash: parent, KV: lent, Height: height}, true)
 	})
+	recycle(lent)
 	return
 }
 
